@@ -296,7 +296,18 @@ func second(wd *World, addrs []string, pays [][]byte, blockAt int64, rewardAt in
 	if rows == nil {
 		rows = []string{"0"}
 	}
-	return append(out, rows...)
+	out = append(out, rows...)
+	// has the keystore cache lost the keystore that is still selected? (asked the way the path asks)
+	ev := "0"
+	func() {
+		defer func() {
+			if r := recover(); r != nil {
+				ev = "1"
+			}
+		}()
+		wd.ksmgr().GetManagedAddressByScriptHashInCurrent(make([]byte, 32))
+	}()
+	return append(out, ev)
 }
 
 // lagRows: the binding-history row of the deposit of scenario lagging-reorg, as coq/Api/Panic.v [bind_row] reads it:
@@ -305,8 +316,8 @@ func lagRows(wd *World) []string {
 	l := wd.lag
 	// with unconfirmed binding deposits in the wallet the API meets their rows first (and gives up on an unmined
 	// parent: ErrAPIQueryDataFailed): the single row rendered here is the whole story only without them
-	if l == nil || !l.sameLoc || wd.w.WM.CurrentWallet() == "" || len(wd.pend) > 0 {
-		return nil
+	if l == nil || !l.sameLoc || len(wd.ws) == 0 || wd.w.WM.CurrentWallet() != wd.ws[0].id || len(wd.pend) > 0 {
+		return nil // (another wallet may have been selected by an earlier request of the instance)
 	}
 	// has the wallet followed the node in the meantime? then the row is gone (or points to the new chain)
 	if h, err := wd.w.WM.SyncedTo(); err != nil || h != l.height+1 {
@@ -363,6 +374,7 @@ func modelLine(wd *World, id string, g gcase) string {
 		args = []string{hx(r.Passphrase), hx(r.Remarks), fmt.Sprint(r.BitSize)}
 	case *pb.ValidateAddressRequest:
 		args = []string{hx(r.Address)}
+		sec = second(wd, []string{r.Address}, nil, -1, -1, nil)
 	case *pb.GetAddressBalanceRequest:
 		args = append([]string{fmt.Sprint(r.RequiredConfirmations)}, strList(r.Addresses)...)
 	case *pb.GetWalletBalanceRequest:
